@@ -543,7 +543,13 @@ sexp sexp_string_contains (sexp ctx, sexp self, sexp_sint_t n, sexp x, sexp y, s
   sexp_assert_type(ctx, sexp_string_cursorp, SEXP_STRING_CURSOR, start);
   if (sexp_unbox_string_cursor(start) > sexp_string_size(x))
     return sexp_user_exception(ctx, self, "string-contains: start out of range", start);
-  res = strstr(sexp_string_data(x) + sexp_unbox_string_cursor(start), sexp_string_data(y));
+  {
+    const char *hay = sexp_string_data(x), *needle = sexp_string_data(y);
+    sexp_sint_t hlen = sexp_string_size(x), nlen = sexp_string_size(y), i;
+    res = NULL;
+    for (i = sexp_unbox_string_cursor(start); i + nlen <= hlen; i++)
+      if (memcmp(hay + i, needle, nlen) == 0) { res = hay + i; break; }
+  }
   return res ? sexp_make_string_cursor(res-sexp_string_data(x)) : SEXP_FALSE;
 }
 
